@@ -148,7 +148,7 @@ def _labels(rs, n_all, desc):
     return list(range(n_all)), list(range(n_all))
 
 
-def _problem(case, interpolate=False):
+def _problem(case):
     """returns dict(basis_full (k x nd_all), labels, values (pattern_idx argument or None), S, X (k x present entries),
     Y (r x present), train_vecs (r x all selected pairs, with nan), sigma, V (present x present), mask)"""
     rs = np.random.RandomState(case['seed'])
@@ -382,7 +382,7 @@ def orc_select(case):
 @oracle('C08/interpolate')
 def orc_interpolate(case):
     from rsatoolbox.model import ModelInterpolate
-    pb = _problem(case, interpolate=True)
+    pb = _problem(case)
     k = case['k']
     model = ModelInterpolate('i', _rdms(pb['basis'], pb['labels']))
     data = _rdms(pb['train_vecs'], [pb['labels'][s] for s in pb['S']])
@@ -429,7 +429,7 @@ def orc_interpolate(case):
 
 def _interp_optimum_kind(case):
     """where (by the spec) the best adjacent mixture of the chain lies: at a basis RDM or inside a segment"""
-    pb = _problem(case, interpolate=True)
+    pb = _problem(case)
     crit = _Crit(case['method'], pb['Y'], pb['V'])
     k = case['k']
     best = (-np.inf, None)
@@ -478,8 +478,9 @@ def orc_restriction(case):
     kw3 = {a: v for a, v in kw.items() if a not in ('pattern_idx', 'pattern_descriptor')}
     m3 = cls('m', _rdms(pb['sel_basis_vecs'], [pb['labels'][s] for s in S]))
     th3 = np.asarray(_call_fit(fit_name, m3, data, kw3, 'direct', seed), dtype=float)
-    # the BFGS-based fitters amplify last-bit differences of the two evaluation orders; closed forms must agree to 1e-9
-    if not close(th3, th1, 1e-5 if fit_name.startswith('fit_optimize') else 1e-9):
+    # the closed forms must agree to 1e-9; the BFGS-based fitters amplify last-bit differences between the two evaluation
+    # orders up to the accuracy of their stopping rule (a fit that used other conditions / multiplicities differs by >1e-2)
+    if not close(th3, th1, 1e-4 if fit_name.startswith('fit_optimize') else 1e-9):
         return (f'{fit_name}: fit with pattern_idx {pb["values"]} is {_fmt(th1)} but the fit of the model restricted to these '
                 f'conditions (with their multiplicity) is {_fmt(th3)}')
     # (3) the order in which the conditions are named does not matter
@@ -732,14 +733,18 @@ def tier_c(run, thorough):
     # ---- weighted-sum fitters ------------------------------------------------------------------
     for orc, fit_name in ((orc_regress, 'fit_regress'), (orc_regress_nn, 'fit_regress_nn'),
                           (orc_optimize, 'fit_optimize'), (orc_optimize_positive, 'fit_optimize_positive')):
+        wc = _weighted_cases(thorough, fit_name)
+        n_sig = sum(c['sigma'] != 'none' for c in wc)
         bd = Bounded(run, orc.oracle_name, f'C08/{fit_name}/oracle/optimal-among-competitors',
-                     'seeded problems: 2..%d basis RDMs on %s conditions, pattern selections none / permuted / subsets / with '
-                     'repeats (<= 8 selected, descriptor index or a relabelled one), 1/3/4 training RDMs of different scale, '
-                     'methods cosine, corr, cosine_cov, corr_cov, sigma_k none / given 2-D (full%s), ridge 0, normalize '
-                     'on+off; competitors: 40 random directions, 45 local perturbations (scales 1e-1,1e-2,1e-3), 5-level '
+                     '%d seeded problems: 2..%d basis RDMs on %s conditions, pattern selections none / permuted / subsets / with '
+                     'repeats (<= 8 selected, descriptor index or a relabelled one), 1/3/4 training RDMs of different scale '
+                     '(random, signed mixtures of the basis, positive mixtures), methods cosine, corr, cosine_cov, corr_cov, '
+                     'sigma_k none / given 2-D (full%s; %d of the problems), ridge 0, normalize on+off, direct call / Fitter '
+                     '/ Model.fit; competitors: 40 random directions, 45 local perturbations (scales 1e-1,1e-2,1e-3), 5-level '
                      'grid, each basis RDM alone, independent (NN)LS optimum; tolerance 1e-6 on the score'
-                     % ((4, '5/6/8', ', diagonal') if thorough else (3, '5/6', '')), function=fit_name)
-        for case in _weighted_cases(thorough, fit_name):
+                     % ((len(wc), 4, '5/6/8', '' if fit_name.startswith('fit_optimize') else ', diagonal', n_sig) if thorough
+                        else (len(wc), 3, '5/6', '', n_sig)), function=fit_name)
+        for case in wc:
             ic = _sigma_class(case)
             if fit_name == 'fit_optimize':
                 ic += ',' + _optimum_sign_class(case)
@@ -818,7 +823,7 @@ def tier_c(run, thorough):
                             sigma = 'none'
                         case = dict(seed=700 + 100 * seed + si, fitter=fit_name, k=k, n_all=n_all, pidx=pidx,
                                     desc=('cond', 'index')[si % 2],
-                                    kind=('random', 'posmix' if slow else 'mix')[si % 2], method=method,
+                                    kind='posmix' if slow else ('random', 'mix')[si % 2], method=method,
                                     n_train=(1, 3)[si % 2], sigma=sigma)
                         bd.check(orc_restriction, case, fit_name + ',' + _sigma_class(case), function=fit_name)
     bd.done()
